@@ -222,6 +222,13 @@ def r_zone_flow(rep, prog):
         ib, it = sites[0]
         farg = tm.operand(it["args"][1])
         subs = [x for x in T.walk(farg) if x[0] == "call" and x[1] == "usize::checked_sub"]
+        direct = m == "get" and any(callee_name(t["callee"]) == "usize::checked_sub" for _, t in b.calls())
+        if direct:
+            _zone_get_direct(rep, rule, fn, b, tm, prog, ib, it, farg)
+            other = tm.operand(it["args"][2])
+            rep.check(other[0] == "p", rule, "%s|forwards-request" % fn, "second argument forwarded unchanged: " + T.show(other),
+                      "request/order argument is not forwarded unchanged: " + T.show(other), it["span"])
+            continue
         if m == "get":
             # frame.map(|f| f.0.checked_sub(self.offset).map(FrameId).ok_or(Argument)).transpose()?
             maps = [x for x in T.walk(farg) if x[0] == "call" and x[1] == "core::option::Option::map"]
@@ -290,6 +297,53 @@ def r_zone_flow(rep, prog):
         other = tm.operand(it["args"][2])
         rep.check(other[0] == "p", rule, "%s|forwards-request" % fn, "second argument forwarded unchanged: " + T.show(other),
                   "request/order argument is not forwarded unchanged: " + T.show(other), it["span"])
+
+
+def _zone_get_direct(rep, rule, fn, b, tm, prog, ib, it, farg):
+    """ZoneAlloc::get with the offset translation written in the body itself (match / if let / let-else):
+    case split over the reaching definitions of the inner argument plus a path-sensitive agreement check."""
+    alts = T.alternatives(tm, farg)
+    some_alts = []
+    okc = True
+    detail = []
+    for a in alts:
+        if a[0] == "agg" and a[1].startswith("adt:core::option::Option::None"):
+            detail.append("None")
+            continue
+        subs = [x for x in T.walk(a) if x[0] == "call" and x[1] == "usize::checked_sub"]
+        good = bool(subs) and all(T.mentions_param(c[2][0], "frame") and T.mentions_field(c[2][1], "offset")
+                                  and T.mentions_param(c[2][1], "self") for c in subs)
+        good = good and any(err_variant_of_term(x) == "Argument" for x in T.walk(a))
+        good = good and not _mentions_param_outside(a, "frame", lambda x: x[0] == "call" and x[1] == "usize::checked_sub")
+        okc = okc and good
+        some_alts.append(a)
+        detail.append(T.show(a)[:140])
+    rep.check(okc and bool(some_alts), rule, "%s|frame-through-checked_sub" % fn, "inner frame is one of: " + " | ".join(detail),
+              "a value reaching the inner frame argument is not None and not checked_sub(frame, self.offset) with Error::Argument "
+              "on underflow: " + " | ".join(detail), it["span"])
+    # path agreement: Some stays Some (translated), None stays None, underflow never reaches the inner call
+    ps = PathSens(b, prog, track=lambda n: n == "usize::checked_sub")
+    sub_sites = [bi for bi, t in b.calls() if callee_name(t["callee"]) == "usize::checked_sub"]
+    fparam = [l for l in range(1, b.arg_count + 1) if b.local_name(l) == "frame"]
+    root = farg[1] if farg[0] == "l" else None
+    states = ps.states_at(ib)
+    bad = []
+    for _, env in states:
+        dp = env.get(("d", fparam[0], ())) if fparam else None
+        da = env.get(("d", root, ())) if root is not None else None
+        if dp is None or da is None or dp != da:
+            bad.append("requested=%s inner=%s" % ({0: "None", 1: "Some"}.get(dp, "?"), {0: "None", 1: "Some"}.get(da, "?")))
+        elif dp == 1 and not (any(env.get(("c", sb)) == 1 for sb in sub_sites) and all(env.get(("c", sb)) in (1, None) for sb in sub_sites)):
+            bad.append("Some(frame) reaches the inner call without a successful checked_sub")
+    rep.check(bool(states) and not bad, rule, "%s|inner-only-on-success" % fn,
+              "Some(frame) reaches the inner call only translated, None only as None (%d path states)" % len(states),
+              "the inner allocator is called with a frame argument that does not correspond to the request: " + "; ".join(sorted(set(bad))),
+              it["span"])
+    for rn in ps.return_nodes():
+        env = ps.term_env_of(rn)
+        if any(env.get(("c", sb)) == 0 for sb in sub_sites):
+            rep.check(ps.ret_discr(rn) == 1, rule, "%s|fail-returns-err" % fn, "translation failure returns Err",
+                      "a frame below the zone offset does not make get return Err", b.span)
 
 
 def _mentions_param_outside(t, name, is_barrier):
